@@ -815,6 +815,11 @@ pub fn dispatch(r: &mut Recorder, c: &Value) {
         #[cfg(feature = "likelysubtags")]
         "likely" => crate::likely::check_likely(r, c),
         "dir" => crate::dir::check_dir(r, c),
+        "sweep" | "sweep_dir" | "sweep_universe" => {
+            let mut sw = r.sweep.take().unwrap_or_default();
+            sw.add(r, c);
+            r.sweep = Some(sw);
+        }
         other => {
             r.stat(&format!("unknown_kind_{}", other));
         }
